@@ -2,28 +2,48 @@
 C17 — model of `OutputToFile.__call__` / `Atomic` (openhtf/output/callbacks/__init__.py) and
 `util/atomic_write.py` as programs over a tiny file system. Import-free, executable.
 The destination and the temporary file live on one file system; rename/move is atomic (assumption).
+Writes go to the user-space buffer of the open handle and reach the file only on flush / close (worst case:
+nothing is written back earlier); a handle stays attached to its file when the file is renamed.
 -/
 namespace OpenHTF.AtomicFile
 
 abbrev Bytes := List Nat
 
+/-- where the open handle's file currently is -/
+inductive Handle | closed | onTemp | onDest
+deriving DecidableEq, Repr
+
 structure Fs where
   dest : Option Bytes          -- content of the destination path (none = does not exist)
   temp : Option Bytes := none  -- content of the temporary file
+  buf : Bytes := []            -- written through the handle, not yet flushed (lost if the process dies)
+  handle : Handle := .closed
 deriving DecidableEq, Repr
 
 inductive FsOp
   | createTemp
   | append (data : Bytes)
+  | flush
+  | close
+  | closeFail                  -- close raises: the buffer is lost, the handle is gone
   | rename                     -- temp -> dest (atomic)
   | removeTemp
 deriving DecidableEq, Repr
 
+def flushBuf (fs : Fs) : Fs :=
+  match fs.handle with
+  | .onTemp => { fs with temp := fs.temp.map (· ++ fs.buf), buf := [] }
+  | .onDest => { fs with dest := fs.dest.map (· ++ fs.buf), buf := [] }
+  | .closed => fs
+
 def apply (fs : Fs) : FsOp → Fs
-  | .createTemp => { fs with temp := some [] }
-  | .append d => { fs with temp := fs.temp.map (· ++ d) }
+  | .createTemp => { fs with temp := some [], buf := [], handle := .onTemp }
+  | .append d => if fs.handle = .closed then fs else { fs with buf := fs.buf ++ d }
+  | .flush => flushBuf fs
+  | .close => { flushBuf fs with handle := .closed }
+  | .closeFail => { fs with buf := [], handle := .closed }
   | .rename => match fs.temp with
-    | some t => { dest := some t, temp := none }
+    | some t => { fs with dest := some t, temp := none, handle := if fs.handle = .onTemp then .onDest else fs.handle }
     | none => fs
   | .removeTemp => { fs with temp := none }
 
@@ -40,17 +60,22 @@ deriving DecidableEq, Repr
 /-- `OutputToFile.__call__` with a filename pattern (after the `fix:` commit: on an exception the
     temporary file is discarded instead of being moved over the destination) -/
 def outputToFile (chunks : List Bytes) : Fault → List FsOp
-  | .none => [.createTemp] ++ chunks.map .append ++ [.rename]
-  | .serializer k => [.createTemp] ++ (chunks.take k).map .append ++ [.removeTemp]
-  | .write k => [.createTemp] ++ (chunks.take k).map .append ++ [.removeTemp]
-  | .close => [.createTemp] ++ chunks.map .append     -- close raised: nothing is moved, the temporary file stays behind
+  | .none => [.createTemp] ++ chunks.map .append ++ [.close] ++ [.rename]
+  | .serializer k => [.createTemp] ++ (chunks.take k).map .append ++ [.close, .removeTemp]
+  | .write k => [.createTemp] ++ (chunks.take k).map .append ++ [.close, .removeTemp]
+  | .close => [.createTemp] ++ chunks.map .append ++ [.closeFail]   -- close raised: nothing is moved, the temporary file stays behind
 
-/-- `atomic_write(filename)`: rename only after the body completed; the temporary file is removed in `finally` -/
-def atomicWrite (chunks : List Bytes) : Fault → List FsOp
-  | .none => [.createTemp] ++ chunks.map .append ++ [.rename, .removeTemp]
-  | .serializer k => [.createTemp] ++ (chunks.take k).map .append ++ [.removeTemp]
-  | .write k => [.createTemp] ++ (chunks.take k).map .append ++ [.removeTemp]
-  | .close => [.createTemp] ++ chunks.map .append ++ [.removeTemp]
+/-- `atomic_write(filename, filesync)`: close, then rename, only after the body completed; the temporary file is
+    removed in `finally` -/
+def atomicWrite (chunks : List Bytes) (filesync : Bool) : Fault → List FsOp
+  | .none => [.createTemp] ++ chunks.map .append ++ ((if filesync then [.flush] else []) ++ [.close]) ++ [.rename, .removeTemp]
+  | .serializer k => [.createTemp] ++ (chunks.take k).map .append ++ [.close, .removeTemp]
+  | .write k => [.createTemp] ++ (chunks.take k).map .append ++ [.close, .removeTemp]
+  | .close => [.createTemp] ++ chunks.map .append ++ [.closeFail, .removeTemp]
+
+/-- the variant that publishes before closing (`os.rename` inside the `with open(...)` block) -/
+def atomicWriteRenameBeforeClose (chunks : List Bytes) : List FsOp :=
+  [.createTemp] ++ chunks.map .append ++ [.rename, .close, .removeTemp]
 
 /-- the process is killed after the first k file-system operations -/
 def crashAfter (k : Nat) (ops : List FsOp) : List FsOp := ops.take k
